@@ -1,0 +1,87 @@
+//go:build verif && linux
+
+package conn
+
+import (
+	"errors"
+	"net"
+
+	"golang.org/x/net/ipv4"
+	"golang.org/x/net/ipv6"
+)
+
+// Fault-injection access for the verification harness of property C18 (build
+// tag verif only).  Add-only.
+
+// VerifBatchWriter is the unexported batchWriter interface.
+type VerifBatchWriter interface {
+	WriteBatch([]ipv6.Message, int) (int, error)
+}
+
+// VerifRealBatchWriter returns the packet conn that Send writes to for the
+// address family (nil if the bind has no such socket).
+func VerifRealBatchWriter(b Bind, v6 bool) VerifBatchWriter {
+	s, ok := b.(*StdNetBind)
+	if !ok {
+		return nil
+	}
+	s.mu.Lock()
+	defer s.mu.Unlock()
+	if v6 {
+		if s.ipv6PC == nil {
+			return nil
+		}
+		return s.ipv6PC
+	}
+	if s.ipv4PC == nil {
+		return nil
+	}
+	return s.ipv4PC
+}
+
+// VerifSendLoop runs (*StdNetBind).send, the WriteBatch loop, on msgs with a
+// writer supplied by the harness (which may accept only part of a batch or
+// fail, as the kernel may).
+func VerifSendLoop(b Bind, v6 bool, w VerifBatchWriter, msgs []ipv6.Message) error {
+	s, ok := b.(*StdNetBind)
+	if !ok {
+		return errors.New("not a StdNetBind")
+	}
+	s.mu.Lock()
+	c := s.ipv4
+	if v6 {
+		c = s.ipv6
+	}
+	s.mu.Unlock()
+	return s.send(c, w, msgs)
+}
+
+// VerifWrapPacketConn replaces the packet conn that the public Send writes to
+// by one built over wrap(the bind's own *net.UDPConn).  The wrapper can, for
+// example, hand out a syscall.RawConn whose Write fails once with EIO, which is
+// what a NIC without tx checksum offload makes of a UDP_SEGMENT send.
+func VerifWrapPacketConn(b Bind, v6 bool, wrap func(*net.UDPConn) net.PacketConn) error {
+	s, ok := b.(*StdNetBind)
+	if !ok {
+		return errors.New("not a StdNetBind")
+	}
+	s.mu.Lock()
+	defer s.mu.Unlock()
+	if v6 {
+		if s.ipv6 == nil {
+			return errors.New("no IPv6 socket")
+		}
+		s.ipv6PC = ipv6.NewPacketConn(wrap(s.ipv6))
+		return nil
+	}
+	if s.ipv4 == nil {
+		return errors.New("no IPv4 socket")
+	}
+	s.ipv4PC = ipv4.NewPacketConn(wrap(s.ipv4))
+	return nil
+}
+
+// VerifShouldDisableUDPGSO exposes errShouldDisableUDPGSO.
+func VerifShouldDisableUDPGSO(err error) bool {
+	return errShouldDisableUDPGSO(err)
+}
